@@ -39,7 +39,7 @@ ASSUMPTIONS = [
 ]
 TIERS = {
     "quick": {"shards": 32, "cases": 32, "random_scenarios": 5, "timeout": 500, "parallel": 32},
-    "thorough": {"shards": 32, "cases": 32, "random_scenarios": 90, "timeout": 3400, "parallel": 32},
+    "thorough": {"shards": 32, "cases": 32, "random_scenarios": 250, "timeout": 3400, "parallel": 32},
 }
 FLOORS = {
     "quick": {"counts": {"scenarios": 180, "writes_checked": 1000, "strict_sync_checks": 600,
